@@ -164,8 +164,11 @@ Fixpoint remark (a : a4) (l : list (bytes * rec)) : res a4 :=
       end
   end.
 
-(* setupRange on an existing database; argument parsing is modelled in model/Setup.v *)
-Definition range_setup (s e : bytes) (lease : Z) (db : list row) : res rstate :=
+(* setupRange on an existing database; argument parsing is modelled in model/Setup.v.
+   `ord` is the order in which Go's map iteration delivers the loaded records to the
+   re-marking loop (any permutation; the theorems hold for every one). *)
+Definition range_setup_ord (ord : list (bytes * rec) -> list (bytes * rec))
+           (s e : bytes) (lease : Z) (db : list row) : res rstate :=
   match to4 s, to4 e with
   | Some s4, Some e4 =>
       if be_u32_of e4 <=? be_u32_of s4 then Err EOther
@@ -174,7 +177,7 @@ Definition range_setup (s e : bytes) (lease : Z) (db : list row) : res rstate :=
                match load_records db [] with
                | None => Err EOther
                | Some recs =>
-                   match remark a recs with
+                   match remark a (ord recs) with
                    | Ok a' => Ok {| rs_alloc := a'; rs_lease := lease; rs_recs := recs; rs_db := db |}
                    | Err er => Err er
                    | Panic => Panic
@@ -185,3 +188,5 @@ Definition range_setup (s e : bytes) (lease : Z) (db : list row) : res rstate :=
            end
   | _, _ => Err EOther
   end.
+
+Definition range_setup := range_setup_ord (fun l => l).
